@@ -80,7 +80,7 @@ ND_PRESENTATIONS = ["strided", "negstride", "rowstrided", "fortran", "readonly",
 # ("masked-nomask" exists too and is not a default either: numpy's masked arithmetic
 # masks invalid results instead of returning NaN, so a masked array is not "the same
 # numbers" to any function that relies on NaN propagation)
-OTHER_PRESENTATIONS = ["list", "pandas", "pandas-idx", "int"]
+OTHER_PRESENTATIONS = ["list", "pandas", "pandas-idx", "int", "int-narrow"]
 # ndarray presentations that the unchanged library itself does not accept, with the
 # reason (a refusal is then counted, not reported; a result, if given, must still match)
 REFUSED_BY_DEPENDENCY = {
@@ -165,6 +165,21 @@ def present(a, kind):
         finally:
             os.unlink(fn)            # the mapping stays valid after the name is gone
         return mm
+    if kind == "int-narrow":
+        # whole numbers held in the narrowest integer type that takes them all, signed
+        # or unsigned (masks, counts, category codes, scores read from an image)
+        if a.dtype.kind not in "fiu" or not bool(np.all(np.isfinite(a))) or \
+                not bool(np.all(a == np.round(a))):
+            return None
+        lo, hi = float(a.min()), float(a.max())
+        order = [np.uint8, np.int8, np.uint16, np.int16, np.uint32, np.int32]
+        if int(hi + a.size) % 2:
+            order = [np.int8, np.uint8, np.int16, np.uint16, np.int32, np.uint32]
+        for t in order:
+            ii = np.iinfo(t)
+            if ii.min <= lo and hi <= ii.max:
+                return a.astype(t)
+        return None
     if kind == "int":
         if a.dtype != np.float64 or not bool(np.all(np.isfinite(a))) or \
                 not bool(np.all(a == np.round(a))) or bool(np.any(np.abs(a) > 2 ** 52)):
